@@ -112,7 +112,8 @@ def reduceClasses (classes : List Cls) : Option (List Cls) :=
       (reduceAttributes (kv.2.map (·.attrs))).map fun attrs =>
         { first with
           attrs := attrs.map (fun a => { a with types := filterTypes a.types })
-          mixed := kv.2.any (·.mixed) }
+          mixed := kv.2.any (·.mixed)
+          nillable := kv.2.any (·.nillable) }
 
 /-! ### the order of the merged attrs -/
 
